@@ -19,7 +19,7 @@ class Connection(ManagementHandler):
 
         :rtype: dict
         """
-        return self.http_client.get(API_CONNECTION % connection)
+        return self.http_client.get(API_CONNECTION % quote(connection, ''))
 
     def list(self, name=None, page_size=100, use_regex=False):
         """Get Connections.
